@@ -81,6 +81,9 @@ type SMLoad struct {
 	FromMap  bool     `json:"from_map,omitempty"`
 	Mismatch bool     `json:"mismatch,omitempty"` // a failing load: slices of different length
 	ValSalt  int      `json:"val_salt,omitempty"`
+	// FromSelf > 0: instead of new content, the instance is reloaded from strings it handed out itself
+	// (keys from Item / values from Get), leaving out every FromSelf-th entry
+	FromSelf int `json:"from_self,omitempty"`
 }
 
 func (l SMLoad) keys() []string {
@@ -118,6 +121,9 @@ type smInstance struct {
 	get    func(k string) (int, bool)
 	length func() int
 	items  func() (map[string]int, int, error) // nil if unsupported
+	// selfReload reloads the instance from strings the instance itself handed out (keys from Item, values
+	// from Get), leaving out every drop-th entry; it returns copies (made before the load) of the keys kept
+	selfReload func(drop int, modelKeys []string) (kept []string, err error)
 }
 
 // sharedBacking is one string of which many values are prefixes: such values share their start address
@@ -195,6 +201,19 @@ func genericInstance[V comparable](enc func(int) V, dec func(V) int) *smInstance
 			}
 			return out, n, nil
 		},
+		selfReload: func(drop int, _ []string) ([]string, error) {
+			var rk, kept []string
+			var rv []V
+			for i, n := 0, m.Len(); i < n; i++ {
+				if drop > 0 && i%drop == 0 {
+					continue
+				}
+				k, v := m.Item(i) // k is a view of the map's own key storage
+				rk, rv = append(rk, k), append(rv, v)
+				kept = append(kept, string([]byte(k)))
+			}
+			return kept, m.LoadFromSlice(rk, rv)
+		},
 	}
 }
 
@@ -263,93 +282,14 @@ func newInstance(vtype int) *smInstance {
 	case 11:
 		return genericInstance(func(i int) [3]byte { return [3]byte{byte(i), byte(i >> 8), byte(i >> 16)} }, func(v [3]byte) int { return int(v[0]) | int(v[1])<<8 | int(v[2])<<16 })
 	case 0:
-		m := strmap.New[int]()
-		emptyLoads0 := 0
-		return &smInstance{
-			load: func(kk []string, vals []int, fromMap, mismatch bool) error {
-				if mismatch {
-					return m.LoadFromSlice(kk, append(append([]int(nil), vals...), 1))
-				}
-				if fromMap {
-					mm := make(map[string]int, len(kk))
-					for i, k := range kk {
-						mm[k] = vals[i]
-					}
-					if len(kk) == 0 {
-						if emptyLoads0++; emptyLoads0%2 == 1 {
-							mm = nil
-						}
-					}
-					return m.LoadFromMap(mm)
-				}
-				return m.LoadFromSlice(kk, vals)
-			},
-			get:    func(k string) (int, bool) { return m.Get(k) },
-			length: m.Len,
-			items: func() (map[string]int, int, error) {
-				out := map[string]int{}
-				n := m.Len()
-				for i := 0; i < n; i++ {
-					k, v := m.Item(i)
-					if _, dup := out[k]; dup {
-						return nil, n, fmt.Errorf("Item enumerates key %q twice", k)
-					}
-					out[string([]byte(k))] = v
-				}
-				return out, n, nil
-			},
-		}
+		return genericInstance(func(i int) int { return i }, func(v int) int { return v })
 	case 1:
-		m := strmap.New[pairV]()
-		enc := func(i int) pairV { return pairV{int32(i), uint64(i) * 0x9e3779b97f4a7c15} }
-		dec := func(p pairV) int {
+		return genericInstance(func(i int) pairV { return pairV{int32(i), uint64(i) * 0x9e3779b97f4a7c15} }, func(p pairV) int {
 			if p.B != uint64(p.A)*0x9e3779b97f4a7c15 && !(p.A < 0) {
 				return -999999
 			}
 			return int(p.A)
-		}
-		return &smInstance{
-			load: func(kk []string, vals []int, fromMap, mismatch bool) error {
-				vv := make([]pairV, len(vals))
-				for i, v := range vals {
-					vv[i] = enc(v)
-				}
-				if mismatch {
-					return m.LoadFromSlice(kk, append(vv, enc(1)))
-				}
-				if fromMap {
-					mm := make(map[string]pairV, len(kk))
-					for i, k := range kk {
-						mm[k] = vv[i]
-					}
-					return m.LoadFromMap(mm)
-				}
-				return m.LoadFromSlice(kk, vv)
-			},
-			get: func(k string) (int, bool) {
-				p, ok := m.Get(k)
-				if !ok {
-					if p != (pairV{}) {
-						return -888888, false
-					}
-					return 0, false
-				}
-				return dec(p), ok
-			},
-			length: m.Len,
-			items: func() (map[string]int, int, error) {
-				out := map[string]int{}
-				n := m.Len()
-				for i := 0; i < n; i++ {
-					k, v := m.Item(i)
-					if _, dup := out[k]; dup {
-						return nil, n, fmt.Errorf("Item enumerates key %q twice", k)
-					}
-					out[string([]byte(k))] = dec(v)
-				}
-				return out, n, nil
-			},
-		}
+		})
 	case 2:
 		m := strmap.NewStr2Str()
 		emptyLoads2 := 0
@@ -387,6 +327,21 @@ func newInstance(vtype int) *smInstance {
 				return int(evid.Hash64([]byte(s)) & 0x3fffffff), true
 			},
 			length: m.Len,
+			selfReload: func(drop int, modelKeys []string) ([]string, error) {
+				var rk, rv, kept []string
+				for i, k := range modelKeys {
+					if drop > 0 && i%drop == 0 {
+						continue
+					}
+					v, ok := m.Get(k) // v is a view of the map's own value storage
+					if !ok {
+						return nil, fmt.Errorf("Get(%q) absent before the self reload", k)
+					}
+					rk, rv = append(rk, k), append(rv, v)
+					kept = append(kept, k)
+				}
+				return kept, m.LoadFromSlice(rk, rv)
+			},
 		}
 	}
 	return nil
@@ -414,7 +369,7 @@ func checkStrMap(c StrMapCase, cv *cov) (v *evid.Violation) {
 	if reps <= 0 {
 		reps = 4
 	}
-	var sawReload, sawPrefix, sawEmptyState, sawFailedLoad bool
+	var sawReload, sawPrefix, sawEmptyState, sawFailedLoad, sawSelf bool
 	totalKeys := 0
 	body := func() {
 		for rep := 0; rep < reps; rep++ {
@@ -499,6 +454,36 @@ func checkStrMap(c StrMapCase, cv *cov) (v *evid.Violation) {
 				}
 			}
 			for li, ld := range c.Loads {
+				if ld.FromSelf > 0 && !ld.Mismatch {
+					// reload from what the instance itself handed out (the usual way to drop entries from a
+					// read-only map): the strings are valid Go strings when they are passed in
+					mk := make([]string, 0, len(model))
+					for k := range model {
+						mk = append(mk, k)
+					}
+					sort.Strings(mk)
+					kept, err := inst.selfReload(ld.FromSelf, mk)
+					if err != nil {
+						v = evid.Failf("load %d (instance %d): reloading from %d of the instance's own entries failed: %v", li, rep, len(kept), err)
+						return
+					}
+					prev := mk
+					if len(prev) > 200 {
+						prev = prev[:200]
+					}
+					prevKeys = prev
+					nm := make(map[string]int, len(kept))
+					for _, k := range kept {
+						nm[k] = model[k]
+					}
+					model = nm
+					sawReload, sawSelf = true, true
+					probeAll(fmt.Sprintf("after load %d, which reloaded the instance from %d of its own entries (keys returned by Item / values returned by Get), leaving out every %d-th", li, len(kept), ld.FromSelf), mkProbes(kept))
+					if v != nil {
+						return
+					}
+					continue
+				}
 				keys := ld.keys()
 				vals := make([]int, len(keys))
 				for i := range keys {
@@ -583,6 +568,7 @@ func checkStrMap(c StrMapCase, cv *cov) (v *evid.Violation) {
 	cv.labelIf(totalKeys > 1000, "bulk>1000")
 	cv.labelIf(totalKeys/reps <= 8 && totalKeys > 0, "tiny_table")
 	cv.label(fmt.Sprintf("vtype_%d", c.VType))
+	cv.labelIf(sawSelf, "reload_from_own_entries")
 	return nil
 }
 
@@ -671,12 +657,15 @@ func genKeyFam(t *rapid.T, bulkMax int) KeyFam {
 
 func genStrMapCase(t *rapid.T) StrMapCase {
 	bulk := evid.Pick(2000, 2000)
-	c := StrMapCase{VType: rapid.SampledFrom([]int{0, 0, 1, 2, 2, 3, 4, 5, 6, 7, 8, 9, 10, 11}).Draw(t, "vtype")}
+	c := StrMapCase{VType: rapid.SampledFrom([]int{0, 0, 1, 2, 2, 3, 7, 8, 9, 10, 11}).Draw(t, "vtype")}
 	nl := rapid.SampledFrom([]int{0, 1, 1, 2, 3, 4, 6}).Draw(t, "nloads")
 	for i := 0; i < nl; i++ {
 		ld := SMLoad{FromMap: rapid.Bool().Draw(t, "fromMap"), ValSalt: rapid.IntRange(0, 1000).Draw(t, "salt")}
 		if i > 0 && rapid.IntRange(0, 5).Draw(t, "mismatch") == 0 {
 			ld.Mismatch = true
+		}
+		if i > 0 && !ld.Mismatch && rapid.IntRange(0, 3).Draw(t, "fromSelf") == 0 {
+			ld.FromSelf = rapid.SampledFrom([]int{2, 3, 5, 1000000}).Draw(t, "selfDrop")
 		}
 		nf := rapid.SampledFrom([]int{0, 1, 1, 2, 3}).Draw(t, "nfam")
 		for j := 0; j < nf; j++ {
@@ -692,7 +681,7 @@ func genStrMapCase(t *rapid.T) StrMapCase {
 }
 
 func TestC07_Random(t *testing.T) {
-	rec := evid.New("C07", "c07_random", "rapid: load histories of 0..6 loads (from map / from slices, growing and shrinking, zero keys, failing loads with mismatched slice lengths) on StrMap[V] for V in {int, pointer-free struct, string, pointer, struct holding a string and a pointer (these three are referenced by the map only, followed by garbage collections and allocation churn), bool, int32, struct{}, a 9-byte struct, [3]byte}, Str2Str and strstore; key sets are unions of families (empty key, prefix chains, one stem with all 1-byte extensions, keys differing in first/last byte, embedded NUL/0xff, lengths 0..300 and 5000, counter keys up to 2000, raw bytes); probes = every loaded key, keys of the previous load, each key truncated/extended/flipped, concatenations, raw bytes; every case on 4 fresh instances (fresh hash seeds); oracle = Go map; non-trivial = >= 2 loads, prefix-related keys, or the never-loaded/empty state")
+	rec := evid.New("C07", "c07_random", "rapid: load histories of 0..6 loads (from map / from slices, growing and shrinking, zero keys, failing loads with mismatched slice lengths, reloads from the instance's own entries - keys returned by Item, values returned by Get - leaving some out) on StrMap[V] for V in {int, a 16-byte struct, bool, int32, struct{}, a 9-byte struct, [3]byte} (value types without pointers, as the package documentation requires), Str2Str and strstore; key sets are unions of families (empty key, prefix chains, one stem with all 1-byte extensions, keys differing in first/last byte, embedded NUL/0xff, lengths 0..300 and 5000, counter keys up to 2000, raw bytes); probes = every loaded key, keys of the previous load, each key truncated/extended/flipped, concatenations, raw bytes; every case on 4 fresh instances (fresh hash seeds); oracle = Go map; non-trivial = >= 2 loads, prefix-related keys, or the never-loaded/empty state")
 	defer rec.Flush()
 	rec.Assume("hash/maphash seeds are chosen by the runtime per instance and are not injectable; each case runs on 4 fresh instances")
 	runRapid(t, rec, "c07_strmap", evid.Pick(6000, 40000), genStrMapCase, checkStrMap)
